@@ -82,6 +82,14 @@ var xlDomWhitelist = []xlFunc{
 	{Pkg: "dom", Name: "walkContainer", Lean: "walkContainer", RecFuel: "2 * GoDom.sizeC $3 + 2", RecGroup: "walk"},
 	{Pkg: "dom", Recv: "overlayDocument", Name: "Lookup", Lean: "overlayLookup", Flatten: true, NullRes: true},
 	{Pkg: "dom", Recv: "overlayDocument", Name: "LookupAny", Lean: "overlayLookupAny", Flatten: true, NullRes: true},
+	// dom/codec.go: the encoders behind AsMap / AsSlice / DefaultNodeEncoderFn  [C01]
+	{Pkg: "dom", Name: "encodeLeafFn", Lean: "encodeLeafFn", Plain: true},
+	{Pkg: "dom", Name: "encodeListFn", Lean: "encodeListFn", Plain: true, RecFuel: "GoDom.sizeL $1 + 1", RecGroup: "encode"},
+	{Pkg: "dom", Name: "encodeContainerFn", Lean: "encodeContainerFn", Plain: true, RecFuel: "GoDom.sizeC $1 + 1", RecGroup: "encode"},
+	{Pkg: "dom", Recv: "containerImpl", Name: "AsMap", Lean: "containerAsMap", Plain: true},
+	{Pkg: "dom", Recv: "listImpl", Name: "AsSlice", Lean: "listAsSlice", Plain: true},
+	{Pkg: "dom", Name: "DefaultNodeMappingFn", Lean: "DefaultNodeMappingFn", Plain: true},
+	{Pkg: "dom", Name: "DefaultNodeEncoderFn", Lean: "DefaultNodeEncoderFn", Plain: true},
 	// diff/diff.go  [C07]
 	{Pkg: "diff", Name: "appendMod", Lean: "appendMod", Acc: "res"},
 	{Pkg: "diff", Name: "flattenLeaf", Lean: "flattenLeaf", Acc: "res"},
@@ -105,6 +113,9 @@ func genFuncsDom(repo string) (string, error) {
 // ---------------------------------------------------------------- types
 
 const domPath = xlModule + "dom"
+
+// xlPlainMode: the function being translated has the whitelist flag Plain (set by translateFunc / registerRecs)
+var xlPlainMode bool
 
 // domKind classifies a Go type: "node" | "cont" | "list" | "leaf" | "any" | ""
 func domKind(t types.Type) string {
@@ -141,6 +152,9 @@ func domKind(t types.Type) string {
 		if isStringy(y.Key()) && domKind(y.Elem()) == "node" {
 			return "cont"
 		}
+		if isStringy(y.Key()) && domKind(y.Elem()) == "plain" {
+			return "plainmap" // map[string]interface{} on the codec side
+		}
 		if isStringy(y.Key()) && domKind(y.Elem()) == "cont" {
 			return "contmap" // map[string]dom.ContainerBuilder (the layers of an overlay document)
 		}
@@ -149,6 +163,9 @@ func domKind(t types.Type) string {
 		}
 	case *types.Interface:
 		if y.NumMethods() == 0 {
+			if xlPlainMode {
+				return "plain"
+			}
 			return "any"
 		}
 	}
@@ -171,6 +188,10 @@ func domKindLean(k string) string {
 		return "GoDom.LeafMap"
 	case "contmap":
 		return "GoDom.ContMap"
+	case "plain":
+		return "Val"
+	case "plainmap":
+		return "(List (String × Val))"
 	}
 	return ""
 }
@@ -256,6 +277,10 @@ func (x *xl) coerce(n ast.Node, s string, from types.Type, fromOpt bool, to type
 				return "", x.errf(n, "conversion of a possibly-nil %s to dom.Node", from)
 			}
 			s = map[string]string{"cont": "(Node.cont ", "list": "(Node.list ", "leaf": "(Node.leaf "}[fk] + s + ")"
+		} else if tk == "plain" && fk == "plainmap" {
+			s = "(Val.obj " + s + ")"
+		} else if sl, ok := from.Underlying().(*types.Slice); ok && tk == "plain" && domKind(sl.Elem()) == "plain" {
+			s = "(Val.arr " + s + ")"
 		} else if tk == "any" && fk == "" || fk == "any" && tk == "" {
 			return "", x.errf(n, "conversion between %s and %s", from, to)
 		} else if tk != "" || fk != "" {
@@ -276,6 +301,9 @@ func (x *xl) exprTo(e ast.Expr, to types.Type, toOpt bool) ([]string, string, er
 	if isNilIdent(x.p.info, e) {
 		if domKind(to) == "any" {
 			return nil, "GoDom.anyNil", nil
+		}
+		if domKind(to) == "plain" {
+			return nil, "Val.null", nil
 		}
 		if toOpt {
 			return nil, "none", nil
@@ -372,6 +400,10 @@ func (x *xl) domMethod(c *ast.CallExpr, sel *ast.SelectorExpr) ([]string, string
 		if err != nil {
 			return nil, "", true, err
 		}
+		if k == "leaf" && m == "Value" && xlPlainMode {
+			// on the codec side a leaf's value is a plain value
+			return b, "(Val.sc (GoDom.value " + r + "))", true, nil
+		}
 		parts := []string{e.lean, r}
 		for _, a := range c.Args {
 			if !isStringy(x.typeOf(a)) {
@@ -464,6 +496,10 @@ func (x *xl) typeAssert(y *ast.TypeAssertExpr) ([]string, string, error) {
 	if y.Type == nil {
 		return nil, "", x.errf(y, "type switch")
 	}
+	if k := domKind(x.typeOf(y.X)); k != "node" && k != "" && k == domKind(x.typeOf(y)) {
+		// n.(dom.Container) on a value that already is a Container: succeeds unless nil
+		return x.domRecv(y.X)
+	}
 	if domKind(x.typeOf(y.X)) != "node" {
 		return nil, "", x.errf(y, "type assertion on %s", x.typeOf(y.X))
 	}
@@ -509,6 +545,23 @@ func (x *xl) domNew(e ast.Expr) ([]string, string, bool, error) {
 	if cl, ok := e.(*ast.CompositeLit); ok && len(cl.Elts) == 0 {
 		if _, isMap := x.typeOf(e).Underlying().(*types.Map); isMap && domKind(x.typeOf(e)) == "cont" {
 			return nil, "GoDom.newContainer", true, nil
+		}
+	}
+	if cl, ok := e.(*ast.CompositeLit); ok && len(cl.Elts) == 0 && domKind(x.typeOf(e)) == "plainmap" {
+		return nil, "GoDom.newPlainMap", true, nil
+	}
+	if c, ok := e.(*ast.CallExpr); ok && len(c.Args) == 2 {
+		// make([]interface{}, n): n nil values
+		if id, ok := c.Fun.(*ast.Ident); ok {
+			if bi, ok := x.p.info.Uses[id].(*types.Builtin); ok && bi.Name() == "make" {
+				if sl, ok := x.typeOf(e).Underlying().(*types.Slice); ok && domKind(sl.Elem()) == "plain" && isInty(x.typeOf(c.Args[1])) {
+					b, n, err := x.expr(c.Args[1])
+					if err != nil {
+						return nil, "", true, err
+					}
+					return b, "(GoDom.makePlainList " + n + ")", true, nil
+				}
+			}
 		}
 	}
 	if c, ok := e.(*ast.CallExpr); ok && len(c.Args) == 1 {
@@ -727,6 +780,43 @@ func (x *xl) domSimple(s ast.Stmt) ([]string, bool, error) {
 		switch l := y.Lhs[0].(type) {
 		case *ast.IndexExpr:
 			// m[k] = v on a local Go map
+			if _, isMap := x.typeOf(l.X).Underlying().(*types.Map); isMap && domKind(x.typeOf(l.X)) == "plainmap" {
+				n, _, err := x.localBuilder(l.X, "map assignment")
+				if err != nil {
+					return nil, true, err
+				}
+				bk, k, err := x.expr(l.Index)
+				if err != nil {
+					return nil, true, err
+				}
+				bv, v, err := x.exprTo(y.Rhs[0], x.typeOf(l.X).Underlying().(*types.Map).Elem(), false)
+				if err != nil {
+					return nil, true, err
+				}
+				return append(append(bk, bv...), fmt.Sprintf("let %s := (GoDom.plainMapSet %s %s %s)", n, n, k, v)), true, nil
+			}
+			if sl, isSl := x.typeOf(l.X).Underlying().(*types.Slice); isSl && domKind(sl.Elem()) == "plain" {
+				// res[i] = v on a slice the function made itself and never copies (no alias can see the write)
+				n, v, err := x.localBuilder(l.X, "element assignment")
+				if err != nil {
+					return nil, true, err
+				}
+				if err := x.unaliasedLocalSlice(l.X, v); err != nil {
+					return nil, true, err
+				}
+				bi, i, err := x.expr(l.Index)
+				if err != nil {
+					return nil, true, err
+				}
+				if !isInty(x.typeOf(l.Index)) {
+					return nil, true, x.errf(l, "index that is not an int")
+				}
+				bv, val, err := x.exprTo(y.Rhs[0], sl.Elem(), false)
+				if err != nil {
+					return nil, true, err
+				}
+				return append(append(bi, bv...), fmt.Sprintf("let %s ← GoDom.plainListSet %s %s %s", n, n, i, val)), true, nil
+			}
 			if _, isMap := x.typeOf(l.X).Underlying().(*types.Map); isMap && domKind(x.typeOf(l.X)) == "leafmap" {
 				// m[k] = leaf on a local map[string]Leaf (or the alias `m := *ret` of the accumulator)
 				n, _, err := x.localBuilder(l.X, "map assignment")
@@ -1037,7 +1127,9 @@ func (w *xlWorld) registerRecs(fs []xlFunc, ps []*xlPkg, fds []*ast.FuncDecl) er
 		}
 		fn := ps[i].info.Defs[fds[i].Name].(*types.Func)
 		sig := fn.Type().(*types.Signature)
+		xlPlainMode = f.Plain
 		pts, res, err := w.sigLeanTypes(f, sig)
+		xlPlainMode = false
 		if err != nil {
 			return fmt.Errorf("%s.%s: %v", f.Pkg, f.Name, err)
 		}
@@ -1303,4 +1395,63 @@ func (x *xl) domIndex(y *ast.IndexExpr) ([]string, string, bool, error) {
 		return nil, "", true, err
 	}
 	return append(bm, bk...), "(" + fn + " " + m + " " + k + ")", true, nil
+}
+
+// unaliasedLocalSlice: the local slice variable v was created by `make` in this function and every use of it is an
+// element assignment `v[i] = …`, `len(v)`, or `return v` — so no other name can observe an element write
+func (x *xl) unaliasedLocalSlice(at ast.Node, v *types.Var) error {
+	info := x.p.info
+	made := false
+	okUse := map[*ast.Ident]bool{}
+	ast.Inspect(x.fd.Body, func(n ast.Node) bool {
+		switch y := n.(type) {
+		case *ast.AssignStmt:
+			if y.Tok == token.DEFINE && len(y.Lhs) == 1 && len(y.Rhs) == 1 {
+				if id, ok := y.Lhs[0].(*ast.Ident); ok && info.Defs[id] == v {
+					if c, ok := y.Rhs[0].(*ast.CallExpr); ok {
+						if f, ok := c.Fun.(*ast.Ident); ok {
+							if bi, ok := info.Uses[f].(*types.Builtin); ok && bi.Name() == "make" {
+								made = true
+							}
+						}
+					}
+				}
+			}
+			if y.Tok == token.ASSIGN {
+				for _, l := range y.Lhs {
+					if ix, ok := l.(*ast.IndexExpr); ok {
+						if id, ok := ix.X.(*ast.Ident); ok && info.Uses[id] == v {
+							okUse[id] = true
+						}
+					}
+				}
+			}
+		case *ast.ReturnStmt:
+			for _, r := range y.Results {
+				if id, ok := r.(*ast.Ident); ok && info.Uses[id] == v {
+					okUse[id] = true
+				}
+			}
+		case *ast.CallExpr:
+			if f, ok := y.Fun.(*ast.Ident); ok && len(y.Args) == 1 {
+				if bi, ok := info.Uses[f].(*types.Builtin); ok && bi.Name() == "len" {
+					if id, ok := y.Args[0].(*ast.Ident); ok && info.Uses[id] == v {
+						okUse[id] = true
+					}
+				}
+			}
+		}
+		return true
+	})
+	bad := false
+	ast.Inspect(x.fd.Body, func(n ast.Node) bool {
+		if id, ok := n.(*ast.Ident); ok && info.Uses[id] == v && !okUse[id] {
+			bad = true
+		}
+		return true
+	})
+	if !made || bad {
+		return x.errf(at, "element assignment to a slice that is not a local `make` result used only by index assignment, len and return (aliasing)")
+	}
+	return nil
 }
